@@ -9,6 +9,7 @@
   selftest.py seeded [ID ...]            the same for /verif/seeded/<id>/patch.diff (changes written by
                                          independent sub-agents)
   selftest.py real                       real-process reproductions of F1/F2/F3 (sim/real_repro.py)
+  selftest.py regression                 stored replay files hold on /repo and fail on the tree they came from
 Scratch copies live under /dev/shm (or $TMPDIR) and are removed afterwards.
 """
 
@@ -212,6 +213,33 @@ def real():
     return ok
 
 
+def regression():
+    """stored replay files: they must hold on the current tree and fail on the tree they came from"""
+    ok = True
+    root = scratch_root()
+    try:
+        cases = [
+            ("replays/regression/F1-duplicate-prefix.json", "C11", "mutants/M08-prefix-stale-item-F1.patch"),
+            ("replays/known/F3-torn-frame.json", "C13", None),
+        ]
+        for rel, prop, patch in cases:
+            path = os.path.join(HERE, rel)
+            p = subprocess.run([PY, os.path.join(HERE, "check.py"), prop, "--replay", path], capture_output=True, text=True, timeout=600)
+            want = 1 if patch is None else 0  # the known finding still fails on the current tree
+            good = p.returncode == want
+            ok &= good
+            print("replay %s on /repo: rc=%d (expected %d)%s" % (rel, p.returncode, want, "" if good else "  UNEXPECTED"))
+            if patch:
+                tree = make_copy(os.path.join(HERE, patch), root)
+                q = subprocess.run([PY, os.path.join(HERE, "check.py"), prop, "--replay", path], env=dict(os.environ, VERIF_REPO=tree), capture_output=True, text=True, timeout=600)
+                good = q.returncode == 1
+                ok &= good
+                print("replay %s on /repo + %s: rc=%d (expected 1)%s" % (rel, os.path.basename(patch), q.returncode, "" if good else "  UNEXPECTED"))
+    finally:
+        shutil.rmtree(root, ignore_errors=True)
+    return ok
+
+
 if __name__ == "__main__":
     cmd = sys.argv[1] if len(sys.argv) > 1 else "determinism"
     if cmd == "_digests":
@@ -224,6 +252,8 @@ if __name__ == "__main__":
         sys.exit(0 if mutants(sys.argv[2:]) else 1)
     if cmd == "seeded":
         sys.exit(0 if seeded(sys.argv[2:]) else 1)
+    if cmd == "regression":
+        sys.exit(0 if regression() else 1)
     if cmd == "real":
         sys.exit(0 if real() else 1)
     print(__doc__)
